@@ -158,6 +158,7 @@ structure Skeleton where
   cvSliceElementwise         : Bool
   cvFallbackError            : Bool
   pxResultChecksValid        : Bool  -- closure proxy: the result is converted iff `rcpRv[0].Elem().IsValid()` (and for no other reason skipped)
+  pxRecoverReports           : Bool  -- closure proxy: its first statement defers a function that recovers every panic of the invocation and calls setErr unconditionally
   pxClosureIdPerInvocation   : Bool  -- closure proxy: the closure id is decoded from the proxy's own argument position into a variable of the per-invocation literal, and the CallClosure stub is built there (not shared between parameters, invocations or links)
   pxCtxIsInvocationCtx       : Bool  -- closure proxy: the context of the underlying CallClosure RPC is the proxy's own variable, assigned from the invocation's first argument (not the link context)
   pxArgsFreshPerInvocation   : Bool  -- closure proxy: the []interface{} argument list is built inside the per-invocation literal
@@ -176,6 +177,7 @@ structure Skeleton where
   seFirstOnly                : Bool
   seBroadcasts               : Bool
   seStoreUnderLock           : Bool
+  seClosesOnEveryPath        : Bool  -- every path through setErr closes the pending-call table
   seOnlyOwnLock              : Bool  -- setErr takes no lock but its own condition variable's and has no channel operation, select or wait: it waits for nobody (in particular not for a lock that application code may hold)
   linkWaitsOnCond             : Bool  -- Link: lock; read; if nil Wait; read; unlock; return
   watcherCallsSetErr         : Bool
@@ -231,6 +233,7 @@ structure Skeleton where
   clNilErrorViaIsNil         : Bool  -- createClosure's wrapper turns the closure's last result into an `error` only under `!out[i].IsNil()` (a nil pointer of a concrete error type stays "no error")
   msgCodecPlain              : Bool  -- utils.Request/Response Marshal/Unmarshal hand the struct itself to the codec and do nothing else
   linkReturnsOnlyFatalSlot   : Bool  -- the variable Link returns is assigned from the fatal slot only
+  recoverBlocksCanonical     : Bool  -- the three deferred recover blocks of registry.go (stub, closure proxy, handler goroutine) turn the panic value into an error (itself, or ErrPanickedWithNonErrorValue), call setErr unconditionally, and the two reflect.MakeFunc bodies repair the result list for both arities
   errBranchesHandled         : Bool  -- every `if err != nil { … }` of the library reports the error with one of its OWN statements (setErr / panic / return of an error / handing `err` on / storing it) and then leaves
   locksBalanced              : Bool  -- every function body releases what it locks on every path (no return while holding, branches agree, loops neutral, or `defer Unlock`)
   ucNoWaiting                : Bool  -- utils.Call contains nothing that can wait (no channel operation, lock, Once, goroutine)
